@@ -174,6 +174,11 @@ func (list *tSkipList[K, V]) mkNode(key K, val V) (int, *tSkipNode[K, V]) {
 		level++
 	}
 
+	// p == 1.0 when Int63() rounds up to 2^63, the node still needs level 0 finger
+	if level == 0 {
+		level = 1
+	}
+
 	node := &tSkipNode[K, V]{
 		key:     key,
 		val:     val,
